@@ -136,4 +136,14 @@ Example C11_pos_parse :
   skelb (lexed w_pos2_a) (lexed w_pos2_b) = true /\ parse_shapes w_pos2_a = parse_shapes w_pos2_b.
 Proof. split; vm. Qed.
 
+(* ---- grouping: two `:=` in one statement -- group_assignment (the generic _group driver) groups up to the far `;` and walks
+        on with stale indices; where they land depends on HOW MANY white-space tokens precede: two leading blanks give
+        Assignment(Assignment(..)), one gives Assignment(..)  (finding C11-assignment-stale-index; the same mechanism as C18-3) *)
+Definition w_assign2_a : text := [32; 32; 120; 58; 61; 120; 58; 61; 59]%N.     (* two blanks, x:=x:=; *)
+Definition w_assign2_b : text := [32; 120; 58; 61; 120; 58; 61; 59]%N.         (* one blank,  x:=x:=; *)
+Theorem C11_assignment_run_refuted :
+  respelling w_assign2_a w_assign2_b /\ parse_shapes w_assign2_a <> parse_shapes w_assign2_b.
+Proof. split; [respell | shapes_differ]. Qed.
+
 Print Assumptions C11_comment_after_semi_refuted.
+Print Assumptions C11_assignment_run_refuted.
